@@ -1767,4 +1767,485 @@ theorem fixedCharFilter_sound (ch d minLen : Nat) (input : List Nat) (attempt : 
       | none => rfl
       | some c => simp only; cases hasMinRequiredBytes input c minLen <;> rfl
 
+/-! ## the prefix filters -/
+
+/-- a relative search result `r` from `s` is the FIRST place `≥ s` where `Occ` holds -/
+def FirstOcc (Occ : Nat → Prop) (s : Nat) (r : Option Nat) : Prop :=
+  (∀ o, r = some o → Occ (s + o) ∧ ∀ j, s ≤ j → j < s + o → ¬ Occ j) ∧ (r = none → ∀ j, s ≤ j → ¬ Occ j)
+
+/-- `pre` (bytes) occurs at byte offset `j`: exactly, or under ASCII folding -/
+def occB (ic : Bool) (input pre : List Nat) (j : Nat) : Prop :=
+  if ic then foldOcc input pre j else pre <+: input.drop j
+
+theorem firstOcc_search (ic : Bool) (input pre : List Nat) (s : Nat) :
+    FirstOcc (occB ic input pre) s
+      (if ic then indexStringIgnoreCaseASCII (input.drop s) pre else indexBytes (input.drop s) pre) := by
+  cases ic with
+  | true =>
+    simp only [if_true, occB]
+    obtain ⟨h1, h2⟩ := indexStringIgnoreCaseASCII_spec (input.drop s) pre
+    have hd : ∀ j, foldOcc (input.drop s) pre j ↔ foldOcc input pre (s + j) := by
+      intro j; unfold foldOcc; rw [List.drop_drop]
+    constructor
+    · intro o ho
+      obtain ⟨a, b⟩ := h1 o ho
+      refine ⟨(hd o).mp a, fun j hj1 hj2 hc => b (j - s) (by omega) ((hd _).mpr (by rwa [show s + (j - s) = j by omega]))⟩
+    · intro hn j hj hc
+      exact h2 hn (j - s) ((hd _).mpr (by rwa [show s + (j - s) = j by omega]))
+  | false =>
+    simp only [Bool.false_eq_true, if_false, occB]
+    constructor
+    · intro o ho
+      have : idxOf (fun u => pre.isPrefixOf u) input s = some (s + o) := by
+        unfold idxOf; unfold indexBytes at ho; rw [ho]; rfl
+      obtain ⟨_, _, a3, a4⟩ := idxOf_some _ input s _ this
+      exact ⟨List.isPrefixOf_iff_prefix.mp a3, fun j hj1 hj2 hc => by
+        have := a4 j hj1 hj2; rw [List.isPrefixOf_iff_prefix.mpr hc] at this; simp at this⟩
+    · intro hn j hj hc
+      have : idxOf (fun u => pre.isPrefixOf u) input s = none := by
+        unfold idxOf; unfold indexBytes at hn; rw [hn]; rfl
+      have := idxOf_none _ input s this j hj
+      rw [List.isPrefixOf_iff_prefix.mpr hc] at this; simp at this
+
+/-- the condition under which the byte search for `pre` is meaningful: valid UTF-8 without U+FFFD, or ASCII when
+    the comparison folds ASCII case -/
+def PrefixOK (ic : Bool) (pre : List Nat) : Prop := if ic then isASCIIString pre = true else Clean pre
+
+/-- the rune-level fact: the runes of `pre` stand at rune `p` (exactly, or under ASCII folding) -/
+def runeOcc (ic : Bool) (input pre : List Nat) (p : Nat) : Prop :=
+  occursAt (if ic then eqAsciiFold else eqExact) (runesOf pre) (runesOf input) p = true
+
+theorem occB_of_runeOcc (ic : Bool) (input pre : List Nat) (p : Nat) (hp : p ≤ (decodeB input).length)
+    (hok : PrefixOK ic pre) (h : runeOcc ic input pre p) : occB ic input pre (byteOff input p) := by
+  unfold runeOcc occursAt at h
+  rw [← runesOf_drop input p hp] at h
+  cases ic with
+  | true =>
+    simp only [PrefixOK, if_true] at hok
+    simp only [if_true, occB] at h ⊢
+    rw [runesOf_ascii pre hok] at h
+    exact bytes_of_runes_fold pre _ hok h
+  | false =>
+    simp only [PrefixOK, Bool.false_eq_true, if_false] at hok
+    simp only [Bool.false_eq_true, if_false, occB] at h ⊢
+    exact bytes_of_runes_exact pre _ hok h
+
+theorem bnd_of_occB (ic : Bool) (input pre : List Nat) (j : Nat) (hne : pre ≠ []) (hok : PrefixOK ic pre)
+    (h : occB ic input pre j) : Bnd input j := by
+  cases ic with
+  | true =>
+    simp only [PrefixOK, if_true] at hok
+    simp only [if_true, occB] at h
+    exact bnd_of_fold_prefix input pre j hne hok h
+  | false =>
+    simp only [PrefixOK, Bool.false_eq_true, if_false] at hok
+    simp only [Bool.false_eq_true, if_false, occB] at h
+    exact bnd_of_clean_prefix input pre j hne hok h
+
+theorem occB_nil (ic : Bool) (input : List Nat) (j : Nat) : occB ic input [] j := by
+  cases ic <;> simp [occB, foldOcc, prefixOf]
+
+/-- **`stringIndexPrefixFilter`** (case-sensitive, or ASCII ignore-case): if every match starts with the runes
+    of the prefix, the first BYTE occurrence of the prefix at or after `startAt` is a sound candidate. -/
+theorem prefixFilter_sound (pre : List Nat) (ic : Bool) (minLen : Nat) (input : List Nat) (attempt : Nat → Option (Nat × Nat))
+    (hne : pre ≠ []) (hok : PrefixOK ic pre)
+    (hP : ∀ p, p ≤ (decodeB input).length → attempt p ≠ none → runeOcc ic input pre p)
+    (hM : MinLenSound false (decodeB input).length minLen attempt) :
+    StrFilterSound input attempt (prefixFilterBody pre ic minLen) := by
+  rintro _ ⟨ks, hks, rfl⟩
+  unfold prefixFilterBody
+  cases hmb : hasMinRequiredBytes input (byteOff input ks) minLen with
+  | false =>
+    simp only [Bool.not_false, if_true]
+    exact ⟨fun _ => minBytes_false input attempt minLen _ hM hmb (byteOff_le_len input ks), fun h => by simp at h⟩
+  | true =>
+    simp only [Bool.not_true, Bool.false_eq_true, if_false]
+    obtain ⟨f1, f2⟩ := firstOcc_search ic input pre (byteOff input ks)
+    have hocc : ∀ p, p ≤ (decodeB input).length → attempt p ≠ none → occB ic input pre (byteOff input p) :=
+      fun p hp hne' => occB_of_runeOcc ic input pre p hp hok (hP p hp hne')
+    cases hr : (if ic then indexStringIgnoreCaseASCII (input.drop (byteOff input ks)) pre else indexBytes (input.drop (byteOff input ks)) pre) with
+    | none =>
+      simp only
+      refine ⟨fun _ p hp hsp => ?_, fun h => by simp at h⟩
+      cases ha : attempt p with
+      | none => rfl
+      | some m => exact absurd (hocc p hp (by rw [ha]; simp)) (f2 hr _ hsp)
+    | some o =>
+      simp only
+      obtain ⟨g1, g2⟩ := f1 o hr
+      refine ⟨fun h => by simp at h, fun _ => ⟨bnd_of_occB ic input pre _ hne hok g1, by omega, ?_⟩⟩
+      intro p hp hsp hlt
+      cases ha : attempt p with
+      | none => rfl
+      | some m => exact absurd (hocc p hp (by rw [ha]; simp)) (g2 _ hsp hlt)
+
+/-! ### `indexAnyPrefixFallback` -/
+
+theorem foldl_bestOf (srch : List Nat → Option Nat) : ∀ (prefixes : List (List Nat)) (init : Option Nat),
+    let best := prefixes.foldl (fun b pre => bestOf b (srch pre)) init
+    (best = none → init = none ∧ ∀ pre ∈ prefixes, srch pre = none) ∧
+    (∀ b, best = some b → (init = some b ∨ ∃ pre ∈ prefixes, srch pre = some b) ∧
+      (∀ i, init = some i → b ≤ i) ∧ ∀ pre ∈ prefixes, ∀ o, srch pre = some o → b ≤ o) := by
+  intro prefixes
+  induction prefixes with
+  | nil =>
+    intro init
+    simp only [List.foldl_nil]
+    exact ⟨fun h => ⟨h, by simp⟩, fun b h => ⟨Or.inl h, fun i hi => by rw [h] at hi; simp at hi; omega, by simp⟩⟩
+  | cons pre rest ih =>
+    intro init
+    simp only [List.foldl_cons]
+    obtain ⟨i1, i2⟩ := ih (bestOf init (srch pre))
+    have hb : ∀ v, bestOf init (srch pre) = some v →
+        (init = some v ∨ srch pre = some v) ∧ (∀ i, init = some i → v ≤ i) ∧ (∀ o, srch pre = some o → v ≤ o) := by
+      intro v hv
+      unfold bestOf at hv
+      cases hs : srch pre with
+      | none => rw [hs] at hv; simp at hv; exact ⟨Or.inl hv, fun i hi => by rw [hv] at hi; simp at hi; omega, fun o ho => by simp at ho⟩
+      | some o =>
+        rw [hs] at hv
+        cases hi : init with
+        | none => rw [hi] at hv; simp at hv; subst hv; exact ⟨Or.inr rfl, fun i h => by simp at h, fun o' ho' => by simp at ho'; omega⟩
+        | some b =>
+          rw [hi] at hv; simp only at hv
+          split at hv
+          · simp at hv; subst hv
+            exact ⟨Or.inr rfl, fun i h => by simp at h; omega, fun o' ho' => by simp at ho'; omega⟩
+          · simp at hv; subst hv
+            exact ⟨Or.inl rfl, fun i h => by simp at h; omega, fun o' ho' => by simp at ho'; omega⟩
+    have hn : bestOf init (srch pre) = none → init = none ∧ srch pre = none := by
+      intro h
+      unfold bestOf at h
+      cases hs : srch pre with
+      | none => rw [hs] at h; simp at h; exact ⟨h, rfl⟩
+      | some o => rw [hs] at h; cases init <;> simp at h; split at h <;> simp at h
+    constructor
+    · intro h
+      obtain ⟨a, b⟩ := i1 h
+      obtain ⟨c, d⟩ := hn a
+      exact ⟨c, fun p hp => by rcases List.mem_cons.mp hp with rfl | hp; exact d; exact b p hp⟩
+    · intro b h
+      obtain ⟨a1, a2, a3⟩ := i2 b h
+      refine ⟨?_, ?_, ?_⟩
+      · rcases a1 with a1 | ⟨p, hp, hs⟩
+        · rcases (hb b a1).1 with h' | h'
+          · exact Or.inl h'
+          · exact Or.inr ⟨pre, by simp, h'⟩
+        · exact Or.inr ⟨p, by simp [hp], hs⟩
+      · intro i hi
+        cases hv : bestOf init (srch pre) with
+        | none => rw [(hn hv).1] at hi; simp at hi
+        | some v => have := a2 v hv; have := (hb v hv).2.1 i hi; omega
+      · intro p hp o ho
+        rcases List.mem_cons.mp hp with rfl | hp
+        · cases hv : bestOf init (srch p) with
+          | none => rw [(hn hv).2] at ho; simp at ho
+          | some v => have := a2 v hv; have := (hb v hv).2.2 o ho; omega
+        · exact a3 p hp o ho
+
+/-- **`indexAnyPrefixFallback`**: if every match starts with the runes of ONE of the prefixes, the smallest first
+    byte occurrence over all prefixes is a sound candidate (every prefix is searched in the whole rest of the
+    input — the seeded change C02b truncated the haystack). -/
+theorem prefixesFallback_sound (prefixes : List (List Nat)) (ic : Bool) (minLen : Nat) (input : List Nat)
+    (attempt : Nat → Option (Nat × Nat))
+    (hok : ∀ pre ∈ prefixes, PrefixOK ic pre)
+    (hP : ∀ p, p ≤ (decodeB input).length → attempt p ≠ none → ∃ pre ∈ prefixes, runeOcc ic input pre p)
+    (hM : MinLenSound false (decodeB input).length minLen attempt) :
+    StrFilterSound input attempt (indexAnyPrefixFallback prefixes ic minLen) := by
+  rintro _ ⟨ks, hks, rfl⟩
+  unfold indexAnyPrefixFallback
+  cases hmb : hasMinRequiredBytes input (byteOff input ks) minLen with
+  | false =>
+    simp only [Bool.not_false, if_true]
+    exact ⟨fun _ => minBytes_false input attempt minLen _ hM hmb (byteOff_le_len input ks), fun h => by simp at h⟩
+  | true =>
+    simp only [Bool.not_true, Bool.false_eq_true, if_false]
+    have hsp := foldl_bestOf (fun pre => if ic then indexStringIgnoreCaseASCII (input.drop (byteOff input ks)) pre
+        else indexBytes (input.drop (byteOff input ks)) pre) prefixes none
+    simp only at hsp
+    obtain ⟨s1, s2⟩ := hsp
+    have hocc : ∀ p, p ≤ (decodeB input).length → attempt p ≠ none → ∃ pre ∈ prefixes, occB ic input pre (byteOff input p) := by
+      intro p hp hne'
+      obtain ⟨pre, hpre, ho⟩ := hP p hp hne'
+      exact ⟨pre, hpre, occB_of_runeOcc ic input pre p hp (hok pre hpre) ho⟩
+    cases hbest : prefixes.foldl (fun best pre => bestOf best (if ic then indexStringIgnoreCaseASCII (input.drop (byteOff input ks)) pre
+        else indexBytes (input.drop (byteOff input ks)) pre)) none with
+    | none =>
+      simp only
+      refine ⟨fun _ p hp hsp => ?_, fun h => by simp at h⟩
+      cases ha : attempt p with
+      | none => rfl
+      | some m =>
+        exfalso
+        obtain ⟨pre, hpre, ho⟩ := hocc p hp (by rw [ha]; simp)
+        exact (firstOcc_search ic input pre (byteOff input ks)).2 ((s1 hbest).2 pre hpre) _ hsp ho
+    | some b =>
+      simp only
+      obtain ⟨t1, _, t3⟩ := s2 b hbest
+      rcases t1 with t1 | ⟨pre0, hpre0, hs0⟩
+      · simp at t1
+      · obtain ⟨g1, g2⟩ := (firstOcc_search ic input pre0 (byteOff input ks)).1 b hs0
+        refine ⟨fun h => by simp at h, fun _ => ⟨?_, by omega, ?_⟩⟩
+        · by_cases hemp : pre0 = []
+          · -- the empty prefix occurs at once
+            subst hemp
+            have : b = 0 := by
+              by_cases hb0 : b = 0
+              · exact hb0
+              · exact absurd (occB_nil ic input (byteOff input ks)) (g2 _ (Nat.le_refl _) (by omega))
+            subst this; exact ⟨ks, hks, rfl⟩
+          · exact bnd_of_occB ic input pre0 _ hemp (hok pre0 hpre0) g1
+        · intro p hp hsp hlt
+          cases ha : attempt p with
+          | none => rfl
+          | some m =>
+            exfalso
+            obtain ⟨pre, hpre, ho⟩ := hocc p hp (by rw [ha]; simp)
+            obtain ⟨f1, f2⟩ := firstOcc_search ic input pre (byteOff input ks)
+            cases hs : (if ic then indexStringIgnoreCaseASCII (input.drop (byteOff input ks)) pre
+                else indexBytes (input.drop (byteOff input ks)) pre) with
+            | none => exact f2 hs _ hsp ho
+            | some o =>
+              have := t3 pre hpre o hs
+              exact (f1 o hs).2 _ hsp (by omega) ho
+
+/-! ### `asciiStringSetPrefixFilter.index` -/
+
+theorem head_of_prefix (input : List Nat) (c : Nat) (t : List Nat) (j : Nat) (h : (c :: t) <+: input.drop j) :
+    input[j]? = some c := by
+  obtain ⟨rest, hr⟩ := h
+  have := congrArg (·[0]?) hr
+  simp only [List.cons_append, List.getElem?_cons_zero, List.getElem?_drop, Nat.add_zero] at this
+  exact this.symm
+
+theorem asciiSetFilter_sound (f : AsciiSetFilter) (input : List Nat) (attempt : Nat → Option (Nat × Nat))
+    (hne : ∀ pre ∈ f.prefixes, pre ≠ [] ∧ isASCIIString pre = true)
+    (hfirst : ∀ pre ∈ f.prefixes, ∀ c t, pre = c :: t → f.firstChars.contains c = true)
+    (hP : ∀ p, p ≤ (decodeB input).length → attempt p ≠ none → ∃ pre ∈ f.prefixes, runeOcc false input pre p)
+    (hM : MinLenSound false (decodeB input).length f.minRequiredBytes attempt) :
+    StrFilterSound input attempt f.index := by
+  rintro _ ⟨ks, hks, rfl⟩
+  unfold AsciiSetFilter.index
+  cases hmb : hasMinRequiredBytes input (byteOff input ks) f.minRequiredBytes with
+  | false =>
+    simp only [Bool.not_false, if_true]
+    exact ⟨fun _ => minBytes_false input attempt _ _ hM hmb (byteOff_le_len input ks), fun h => by simp at h⟩
+  | true =>
+    simp only [Bool.not_true, Bool.false_eq_true, if_false]
+    have hocc : ∀ p, p ≤ (decodeB input).length → attempt p ≠ none → ∃ pre ∈ f.prefixes, pre <+: input.drop (byteOff input p) := by
+      intro p hp hne'
+      obtain ⟨pre, hpre, ho⟩ := hP p hp hne'
+      have := occB_of_runeOcc false input pre p hp (by simpa [PrefixOK] using clean_ascii pre (hne pre hpre).2) ho
+      exact ⟨pre, hpre, by simpa [occB] using this⟩
+    have hidx : (fun s => (indexByteP (fun b => f.firstChars.contains b) (input.drop s)).map (s + ·)) =
+        idxOf (headSat (fun b => f.firstChars.contains b)) input := by funext s; rfl
+    rw [hidx]
+    -- an occurrence of a prefix at `j` puts a first character at `j`
+    have hhead : ∀ j pre, pre ∈ f.prefixes → pre <+: input.drop j →
+        headSat (fun b => f.firstChars.contains b) (input.drop j) = true ∧ j < input.length := by
+      intro j pre hpre hp
+      match pre, (hne pre hpre).1 with
+      | c :: t, _ =>
+        have hg := head_of_prefix input c t j hp
+        exact ⟨(headSat_drop _ input j).mpr ⟨c, hg, hfirst _ hpre c t rfl⟩, (List.getElem?_eq_some_iff.mp hg).1⟩
+    have post_none : ∀ s, byteOff input ks ≤ s →
+        (∀ j, byteOff input ks ≤ j → ¬ ∃ pre ∈ f.prefixes, pre <+: input.drop j) →
+        FilterPost input attempt (byteOff input ks) (0, false) := by
+      intro s _ hno
+      refine ⟨fun _ p hp hsp => ?_, fun h => by simp at h⟩
+      cases ha : attempt p with
+      | none => rfl
+      | some m => exact absurd (hocc p hp (by rw [ha]; simp)) (hno _ hsp)
+    apply loop_rule _ _ _
+      (fun s => byteOff input ks ≤ s ∧ ∀ j, byteOff input ks ≤ j → j < s → ¬ ∃ pre ∈ f.prefixes, pre <+: input.drop j)
+      (FilterPost input attempt (byteOff input ks)) (input.length + 1)
+    · intro s hg; simp at hg; omega
+    · rintro s ⟨h1, h2⟩ hg
+      apply post_none s h1
+      intro j hj ⟨pre, hpre, hp⟩
+      have := (hhead j pre hpre hp).2
+      simp at hg
+      exact h2 j hj (by omega) ⟨pre, hpre, hp⟩
+    · rintro s ⟨h1, h2⟩ _ hi
+      apply post_none s h1
+      intro j hj ⟨pre, hpre, hp⟩
+      by_cases hjs : j < s
+      · exact h2 j hj hjs ⟨pre, hpre, hp⟩
+      · have := idxOf_none _ input s hi j (by omega)
+        rw [(hhead j pre hpre hp).1] at this; simp at this
+    · rintro s i ⟨h1, h2⟩ _ hi
+      obtain ⟨a1, a2, a3, a4⟩ := idxOf_some _ input s i hi
+      have skip : ∀ j, byteOff input ks ≤ j → j < i → ¬ ∃ pre ∈ f.prefixes, pre <+: input.drop j := by
+        intro j hj hji ⟨pre, hpre, hp⟩
+        by_cases hjs : j < s
+        · exact h2 j hj hjs ⟨pre, hpre, hp⟩
+        · have := a4 j (by omega) hji
+          rw [(hhead j pre hpre hp).1] at this; simp at this
+      cases hany : (f.bucket (input.getD i 0)).any (fun p => decide (p.length ≤ input.length - i) && p.isPrefixOf (input.drop i)) with
+      | true =>
+        simp only [if_true]
+        obtain ⟨pre, hpre, hq⟩ := List.any_eq_true.mp hany
+        simp only [Bool.and_eq_true] at hq
+        have hmem : pre ∈ f.prefixes := (List.mem_filter.mp hpre).1
+        have hp : pre <+: input.drop i := List.isPrefixOf_iff_prefix.mp hq.2
+        refine ⟨fun h => by simp at h, fun _ => ⟨?_, by omega, ?_⟩⟩
+        · exact bnd_of_clean_prefix input pre i (hne pre hmem).1 (clean_ascii pre (hne pre hmem).2) hp
+        · intro p hp' hsp hlt
+          cases ha : attempt p with
+          | none => rfl
+          | some m => exact absurd (hocc p hp' (by rw [ha]; simp)) (skip _ hsp hlt)
+      | false =>
+        simp only [Bool.false_eq_true, if_false]
+        refine ⟨by omega, by omega, ?_⟩
+        intro j hj hji ⟨pre, hpre, hp⟩
+        by_cases hje : j = i
+        · subst hje
+          match pre, (hne pre hpre).1, hp with
+          | c :: t, _, hp =>
+            have hg := head_of_prefix input c t j hp
+            have hb : (c :: t) ∈ f.bucket (input.getD j 0) := by
+              unfold AsciiSetFilter.bucket
+              apply List.mem_filter.mpr
+              refine ⟨hpre, ?_⟩
+              simp [List.getD_eq_getElem?_getD, hg]
+            have hfalse := List.any_eq_false.mp hany _ hb
+            have hl := prefix_length_le hp
+            rw [List.length_drop] at hl
+            simp only [Bool.and_eq_true, decide_eq_true_eq, not_and] at hfalse
+            exact hfalse hl (List.isPrefixOf_iff_prefix.mpr hp)
+        · exact skip j hj (by omega) ⟨pre, hpre, hp⟩
+    · omega
+    · exact ⟨Nat.le_refl _, fun j h1 h2 => by omega⟩
+
+theorem compile_spec (prefixes : List (List Nat)) (minLen : Nat) (f : AsciiSetFilter)
+    (h : compileASCIIStringSetPrefixFilter prefixes false minLen = some f) :
+    f.prefixes = prefixes ∧ f.minRequiredBytes = minLen ∧
+    (∀ pre ∈ prefixes, pre ≠ [] ∧ isASCIIString pre = true) ∧
+    (∀ pre ∈ prefixes, ∀ c t, pre = c :: t → f.firstChars.contains c = true) := by
+  unfold compileASCIIStringSetPrefixFilter at h
+  simp only [Bool.false_eq_true, if_false] at h
+  split at h
+  · simp at h
+  · rename_i hall
+    split at h
+    · simp at h
+    · split at h
+      · simp at h
+      · simp only [Option.some.injEq] at h
+        subst h
+        have hall' : ∀ pre ∈ prefixes, pre ≠ [] ∧ isASCIIString pre = true := by
+          have hall2 : ∀ x, x ∈ prefixes → ¬ x = [] ∧ isASCIIString x = true := by simpa using hall
+          exact hall2
+        refine ⟨rfl, rfl, hall', ?_⟩
+        intro pre hpre c t hct
+        subst hct
+        have hasc := (hall' _ hpre).2
+        simp only [isASCIIString, List.all_cons, Bool.and_eq_true, decide_eq_true_eq] at hasc
+        simp only [List.contains_iff_mem, List.mem_filter, List.mem_range]
+        exact ⟨by omega, List.any_eq_true.mpr ⟨_, hpre, by simp⟩⟩
+
+/-! ### `stringLiteralAfterLoopFilter` -/
+
+/-- the literal of a `LiteralAfterLoop` record at rune `k` of the decoded text -/
+def litAtB (l : LitB) (text : List Nat) (k : Nat) : Prop :=
+  if l.str.isEmpty = false then
+    occursAt (if l.strIgnoreCase then eqAsciiFold else eqExact) (runesOf l.str) text k = true
+  else if l.chars.isEmpty = false then memAt (fun c => l.chars.contains c) text k = true
+  else text[k]? = some l.char
+
+theorem sanitize_valid (c : Nat) (h : validRune c = true) : sanitize c = c := by simp [sanitize, h]
+
+theorem literalAfterLoopFilter_sound (l : LitB) (minLen : Nat) (input : List Nat) (attempt : Nat → Option (Nat × Nat))
+    (hstr : l.str.isEmpty = false → PrefixOK l.strIgnoreCase l.str)
+    (hL : ∀ p, p ≤ (decodeB input).length → attempt p ≠ none → ∃ k, p ≤ k ∧ litAtB l (runesOf input) k)
+    (hM : MinLenSound false (decodeB input).length minLen attempt) :
+    StrFilterSound input attempt (literalAfterLoopFilterBody l minLen) := by
+  rintro _ ⟨ks, hks, rfl⟩
+  unfold literalAfterLoopFilterBody
+  cases hmb : hasMinRequiredBytes input (byteOff input ks) minLen with
+  | false =>
+    simp only [Bool.not_false, if_true]
+    exact ⟨fun _ => minBytes_false input attempt minLen _ hM hmb (byteOff_le_len input ks), fun h => by simp at h⟩
+  | true =>
+    simp only [Bool.not_true, Bool.false_eq_true, if_false]
+    cases hhas : stringHasLiteralAfterLoop input (byteOff input ks) l with
+    | true =>
+      simp only [Bool.not_true, Bool.false_eq_true, if_false]
+      exact ⟨fun h => by simp at h, fun _ => ⟨⟨ks, hks, rfl⟩, Nat.le_refl _, fun p _ h1 h2 => by omega⟩⟩
+    | false =>
+      simp only [Bool.not_false, if_true]
+      refine ⟨fun _ p hp hsp => ?_, fun h => by simp at h⟩
+      cases ha : attempt p with
+      | none => rfl
+      | some m =>
+        exfalso
+        obtain ⟨k, hpk, hlit⟩ := hL p hp (by rw [ha]; simp)
+        have hksp : ks ≤ p := (byteOff_le_iff input ks p hks hp).mp hsp
+        unfold stringHasLiteralAfterLoop at hhas
+        unfold litAtB at hlit
+        cases hse : l.str.isEmpty with
+        | false =>
+          simp only [hse, Bool.not_false, if_true] at hhas hlit
+          have hok := hstr hse
+          have hne : l.str ≠ [] := by intro h; rw [h] at hse; simp at hse
+          -- the rune occurrence lies inside the input
+          have hk : k < (decodeB input).length := by
+            by_cases hk : k < (decodeB input).length
+            · exact hk
+            · exfalso
+              unfold occursAt at hlit
+              rw [List.drop_eq_nil_of_le (by rw [runesOf_length]; omega)] at hlit
+              cases hr : runesOf l.str with
+              | nil => exact runesOf_ne_nil _ hne hr
+              | cons r rs => rw [hr] at hlit; simp [prefixOf] at hlit
+          have hob := occB_of_runeOcc l.strIgnoreCase input l.str k (by omega) hok hlit
+          have hfs := firstOcc_search l.strIgnoreCase input l.str (byteOff input ks)
+          have hnone : (if l.strIgnoreCase then indexStringIgnoreCaseASCII (input.drop (byteOff input ks)) l.str
+              else indexBytes (input.drop (byteOff input ks)) l.str) = none := by
+            cases hci : l.strIgnoreCase <;> simp only [hci, if_true, Bool.false_eq_true, if_false] at hhas ⊢ <;>
+              simpa using hhas
+          exact hfs.2 hnone _ (byteOff_mono input ks k (by omega)) hob
+        | true =>
+          simp only [hse, Bool.not_true, Bool.false_eq_true, if_false] at hhas hlit
+          cases hce : l.chars.isEmpty with
+          | false =>
+            simp only [hce, Bool.not_false, if_true] at hhas hlit
+            unfold indexAnyRunes at hhas
+            rw [decodeB_drop ks input hks] at hhas
+            have hnone : firstSeg (fun c => (l.chars.map sanitize).contains c) ((decodeB input).drop ks) 0 = none := by
+              simpa using hhas
+            unfold memAt at hlit
+            cases hg : (runesOf input)[k]? with
+            | none => rw [hg] at hlit; simp at hlit
+            | some c =>
+              rw [hg] at hlit
+              simp only at hlit
+              have hklt : k < (decodeB input).length := by
+                have := (List.getElem?_eq_some_iff.mp hg).1; rwa [runesOf_length] at this
+              cases hs : (decodeB input)[k]? with
+              | none => have := List.getElem?_eq_none_iff.mp hs; omega
+              | some seg =>
+                have hr : seg.1 = c := by
+                  unfold runesOf at hg
+                  rw [List.getElem?_map, hs] at hg
+                  simpa using hg
+                have hmem : seg ∈ (decodeB input).drop ks := by
+                  apply List.mem_iff_getElem?.mpr
+                  exact ⟨k - ks, by rw [List.getElem?_drop, show ks + (k - ks) = k by omega]; exact hs⟩
+                have := firstSeg_none _ _ 0 hnone seg hmem
+                rw [hr] at this
+                have hv := runesOf_valid input c (List.mem_of_getElem? hg)
+                have hin : (l.chars.map sanitize).contains c = true := by
+                  simp only [List.contains_iff_mem, List.mem_map]
+                  exact ⟨c, by simpa using hlit, sanitize_valid c hv⟩
+                rw [hin] at this; simp at this
+          | true =>
+            simp only [hce, Bool.not_true, Bool.false_eq_true, if_false] at hhas hlit
+            unfold containsRune at hhas
+            have hnone : (indexRune (input.drop (byteOff input ks)) l.char).map (byteOff input ks + ·) = none := by
+              cases hi : indexRune (input.drop (byteOff input ks)) l.char with
+              | none => rfl
+              | some _ => rw [hi] at hhas; simp at hhas
+            exact (indexRune_spec input l.char _ ⟨ks, hks, rfl⟩).2 hnone k hlit (byteOff_mono input ks k (by omega))
+
 end RegexVerif.Lemmas.StringFilter
